@@ -543,6 +543,18 @@ def step(m, mn, o, call_hook):
         k = rd(m, o[2], 8)
         v = vrd(m, o[1], n)
         vwr(m, o[0], [shift32(x, k, mn == "vpslld") for x in v] + [0] * (8 - n), n)
+    elif mn == "vpsrad":
+        n = vlanes(o[0])
+        k = min(rd(m, o[2], 8), 31)
+        v = vrd(m, o[1], n)
+        r = []
+        for x in v:
+            if is_c(x):
+                sx = x - (1 << 32) if x & 0x80000000 else x
+                r.append((sx >> k) & M32)
+            else:
+                r.append("(bvashr %s %s)" % (x, bv(k, 32)))
+        vwr(m, o[0], r + [0] * (8 - n), n)
     elif mn in ("pslld", "psrld"):
         k = rd(m, o[1], 8)
         v = vrd(m, o[0], 4)
